@@ -361,9 +361,9 @@ bool check_full(const Full& f, const Prob& D, const Oracle& O, const std::string
   // (i) self-certification
   checked();
   if (f.sat != (f.st != 0)) { violation("C06.status.is_satisfiable:inconsistent-with-solve", who + ": solve says " + STN[f.st] + " but is_satisfiable says " + (f.sat ? "true" : "false") + "; " + show(D)); return false; }
-  if (f.has_feas) { std::string w = cert_point(D, f.feas, det); if (!w.empty()) { violation("C06.point." + w + ":feasible_point", who + ": " + det + "; " + show(D)); return false; } }
+  if (f.has_feas) { std::string w = cert_point(D, f.feas, det); if (!w.empty()) { violation("C06.point." + w + ":feasible_point" + (D.ints.empty() ? "+lp" : "+mip"), who + ": " + det + "; " + show(D)); return false; } }
   if (f.has_opt) {
-    std::string w = cert_point(D, f.opt, det); if (!w.empty()) { violation("C06.point." + w + ":optimizing_point", who + ": " + det + "; " + show(D)); return false; }
+    std::string w = cert_point(D, f.opt, det); if (!w.empty()) { violation("C06.point." + w + ":optimizing_point" + (D.ints.empty() ? "+lp" : "+mip"), who + ": " + det + "; " + show(D)); return false; }
     Q v = obj_at(D, f.opt); if (v != f.val) { std::ostringstream o; o << who << ": optimal_value " << f.val << " but objective at optimizing_point " << str(f.opt) << " is " << v << "; " << show(D); violation("C06.value:differs_from_point", o.str()); return false; }
   }
   // (ii) reference
@@ -408,7 +408,7 @@ bool check_answer(const Ans& a, int q, const Prob& D, const Oracle& O, const std
     return true;
   }
   if (a.has_pt) {
-    std::string w = cert_point(D, a.g, det); if (!w.empty()) { violation("C06.point." + w + ":" + QN[q], who + ": " + det + "; " + show(D)); return false; }
+    std::string w = cert_point(D, a.g, det); if (!w.empty()) { violation("C06.point." + w + ":" + QN[q] + (D.ints.empty() ? "+lp" : "+mip"), who + ": " + det + "; " + show(D)); return false; }
   }
   if (!O.usable) return true;
   const Ref& R = O.R;
